@@ -1624,14 +1624,16 @@ class Distribution(Generic[X], GFI[X, X]):
             log_density_ = self.logpdf(x_, *args, **kwargs)
             return (
                 Tr(self, (args, kwargs), x_, x_, -log_density_),
-                log_density_ + tr.get_score(),
+                # an array-valued choice has one log density per coordinate:
+                # the weight is the ratio of the joint densities
+                jnp.sum(log_density_) + tr.get_score(),
                 tr.get_retval(),
             )
         else:
             log_density_ = self.logpdf(x_, *args, **kwargs)
             return (
                 Tr(self, (args, kwargs), x_, x_, -log_density_),
-                log_density_ + tr.get_score(),
+                jnp.sum(log_density_) + tr.get_score(),
                 tr.get_retval(),
             )
 
@@ -1652,7 +1654,7 @@ class Distribution(Generic[X], GFI[X, X]):
             log_density_ = self.logpdf(get_choices(tr), *args, **kwargs)
             return (
                 Tr(self, (args, kwargs), x_, x_, -log_density_),
-                log_density_ + tr.get_score(),
+                jnp.sum(log_density_) + tr.get_score(),
                 None,
             )
 
@@ -1970,7 +1972,7 @@ class Generate:
         )
         tr, weight = gen_fn.generate(x, *args, **kwargs)
         self.score += tr.get_score()
-        self.weight += weight
+        self.weight += jnp.sum(weight)  # joint density of an array-valued choice
         self.trace_map[addr] = tr
         return tr.get_retval()
 
@@ -1999,7 +2001,7 @@ class Assess:
         x = self.choice_map[addr]
         x = get_choices(x)
         logp, r = gen_fn.assess(x, *args, **kwargs)
-        self.logp += logp
+        self.logp += jnp.sum(logp)  # joint density of an array-valued choice
         return r
 
 
